@@ -17,6 +17,7 @@ type State struct {
 	counts   map[string]int
 	spawned  []Spawn
 	panicVal Value // non-nil while panicking
+	pending  Value // the panic a deferred call may recover (set while that deferred call runs)
 	panicMsg string
 	noMerge  bool
 	log      []string
@@ -43,6 +44,7 @@ func (s *State) fork() *State {
 	n.pc = append([]*Term(nil), s.pc...)
 	n.spawned = append([]Spawn(nil), s.spawned...)
 	n.panicVal = s.panicVal
+	n.pending = s.pending
 	n.panicMsg = s.panicMsg
 	n.log = s.log
 	n.inputs = append([]InputDecl(nil), s.inputs...)
@@ -218,7 +220,7 @@ func (e *Exec) tryMergeStates(a, b *State) (m *State, cond *Term, ok bool) {
 	if a.noMerge || b.noMerge || e.opts.NoMerge || a.tag != b.tag || a.sends != b.sends {
 		return nil, nil, false
 	}
-	if (a.panicVal != nil) != (b.panicVal != nil) {
+	if (a.panicVal != nil) != (b.panicVal != nil) || a.pending != nil || b.pending != nil {
 		return nil, nil, false
 	}
 	if len(a.spawned) != len(b.spawned) {
